@@ -196,3 +196,10 @@ Example probe_rejects_success_not_unblocking :
     ([(TDet false (DRecord (mkAddr true true false 0) true), DO [] (2, (0, 2, 0))%Z (9, (0, 0, 0))%Z)]
        : list (top * dobs)) <> [].
 Proof. vm_compute. discriminate. Qed.
+
+(* "known-good" claimed before a full observation window is rejected (N = 3,
+   MinSuccesses = 1: one success is not yet a window) *)
+Example monitor_rejects_early_allowed :
+  holds_counter 3 1 [(Rec true, Allowed)] = false /\
+  holds_counter 3 1 [(Rec true, Probing); (Rec false, Probing); (Rec false, Allowed)] = true.
+Proof. split; reflexivity. Qed.
